@@ -116,6 +116,14 @@ CHECKS['C20'] = dict(
          "signature, and generated mnemonics are recorded and validated by TLC.",
     note="X25519/Ed25519/AES/PBKDF2 are library primitives taken as ground truth (shared secret recomputed with nacl, reference ciphertext with Cryptodome)",
     tech="TLA+ two-peer channel machine with symbolic crypto model-checked by TLC + TLC validation of recorded keys/packets (SHA-256 in TLA+)", ref="8/C20")
+CHECKS['C14'] = dict(
+    text="TonTL gives the TL framing (LE ids and integers, 1/4-byte length prefixes with 4-byte padding, vectors, flag-conditional fields, bare/boxed "
+         "objects) over schemas-as-data; TLC re-renders every bundled constructor to its declaration text and recomputes its CRC-32 id, checks "
+         "injectivity and prefix-freeness of the encoding on a synthetic schema. For each of the ~730 supported bundled constructors (base value, "
+         "flag combinations, string/bytes boundary lengths, vector lengths, polymorphic alternatives) the library's bytes must equal the spec's "
+         "encoding and parse back to the same value consuming all bytes; BlockIdExt helpers on boundary values.",
+    note="schema reader and dict<->value conversion in tlkit.py are glue (the reader is checked by TLC through Render and the id); strings ASCII; bytes values that are themselves TL objects are out of scope",
+    tech="TLA+ TL encoding spec evaluated by TLC on recorded serialisations (trace validation) + TLC lemma (unique decodability) + TLC-checked schema transcription", ref="8/C14")
 NOT_APPLICABLE = []
 def main():
     checks = []
